@@ -1048,6 +1048,13 @@ pub fn run(tier: Tier) -> RunOutcome {
                     admissible = states;
                 }
                 // ---- the solver
+                // the user may edit the public settings at any time; whether updates are
+                // allowed was settled by what the presolver did at construction
+                let toggled = chance("toggle_presolve_setting", 1, 6);
+                if toggled {
+                    probe("c08_update_with_presolve_setting_toggled");
+                    solver.settings.presolve_enable = !solver.settings.presolve_enable;
+                }
                 let result: Result<Result<(), String>, String> = if is_ud {
                     catch_unwind(AssertUnwindSafe(|| {
                         let all_full = parts.iter().all(|(_, u)| matches!(u, Upd::Full(_)));
@@ -1077,6 +1084,9 @@ pub fn run(tier: Tier) -> RunOutcome {
                 } else {
                     call_update(&mut solver, parts[0].0, &parts[0].1)
                 };
+                if toggled {
+                    solver.settings.presolve_enable = !solver.settings.presolve_enable;
+                }
                 let all_empty = parts.iter().all(|(_, u)| u.is_empty_update());
                 match &result {
                     Err(p) => {
